@@ -29,7 +29,9 @@ manifest = {
          "serves_properties": [c["property_id"] for c in CHECKS],
          "kind_free_text": "Hypothesis-driven generators (plus exhaustive enumeration of finite "
                            "sub-domains and injected faults at enumerated call indices) against explicit "
-                           "oracles; 16 seeded shards; JSON replay files"},
+                           "oracles; 16 seeded shards; JSON replay files; thorough tier of C10/C11/C19/C20 "
+                           "adds a coverage-guided phase: atheris (libFuzzer) mutates the byte choice sequence "
+                           "of the same Hypothesis strategy with mici.matrices / mici.utils instrumented"},
     ],
     "checks": [],
     "not_applicable": NOT_APPLICABLE,
